@@ -251,7 +251,7 @@ func (b *backup) tryLoad(concurr int) (outcome string, detail string) {
 	case inc:
 		return "inconclusive", "LoadFromDisk did not return and the stuck probe could not decide"
 	case stuck:
-		return "stuck", "LoadFromDisk never returns: the caller is parked in a channel send and no loader goroutine is left to receive"
+		return "stuck", "LoadFromDisk never returns: every goroutine of the call is parked on a call-local channel / wait group (identical in four consecutive goroutine-profile samples); nobody is left who could wake one of them"
 	case res.pan != nil:
 		return "panic", fmt.Sprintf("LoadFromDisk panicked: %v", res.pan)
 	case res.err != nil:
